@@ -301,9 +301,14 @@ impl<A: Read + Write + io::Seek> ZipWriter<A> {
             ));
         }
 
-        let files = (0..number_of_files)
-            .map(|_| central_header_to_zip_file(&mut readwriter, archive_offset))
-            .collect::<Result<Vec<_>, _>>()?;
+        let mut files = Vec::new();
+        for _ in 0..number_of_files {
+            let mut file = central_header_to_zip_file(&mut readwriter, archive_offset)?;
+            // The ZIP64 record of a central header is regenerated from the entry's values when the
+            // directory is written again: the copy that was read must not be emitted a second time.
+            file.extra_field = without_zip64_extra_field(&file.extra_field);
+            files.push(file);
+        }
 
         readwriter.seek(io::SeekFrom::Start(directory_start))?; // seek directory_start to overwrite it
 
@@ -1298,6 +1303,27 @@ fn write_central_directory_header<T: Write>(writer: &mut T, file: &ZipFileData) 
     // <none>
 
     Ok(())
+}
+
+/// The records of an extra field except the ZIP64 extended information records (header ID 0x0001).
+fn without_zip64_extra_field(extra: &[u8]) -> Vec<u8> {
+    let mut kept = Vec::with_capacity(extra.len());
+    let mut pos = 0;
+    while extra.len() - pos >= 4 {
+        let kind = u16::from_le_bytes([extra[pos], extra[pos + 1]]);
+        let len = u16::from_le_bytes([extra[pos + 2], extra[pos + 3]]) as usize;
+        let end = if len > extra.len() - pos - 4 {
+            extra.len()
+        } else {
+            pos + 4 + len
+        };
+        if kind != 0x0001 {
+            kept.extend_from_slice(&extra[pos..end]);
+        }
+        pos = end;
+    }
+    kept.extend_from_slice(&extra[pos..]);
+    kept
 }
 
 fn validate_extra_data(file: &ZipFileData) -> ZipResult<()> {
